@@ -442,11 +442,11 @@ def main(tier):
     ps.ensure_engine()
     ex = pscheck.Explorer(PROP, tier, "exploration", gen, execute, signature, minimise)
     ex.max_minimise = 10
-    ex.report.rule = ("35 systematic one-factor-at-a-time histories first (two builds that differ in one listed property, every alternative value, every supply channel, every fixed environment); then: one run = a seeded history of 6-12 builds (each a fresh simulated process, or 2-3 consecutive builds per process) on one cache directory, drawn from "
+    ex.report.rule = ("%d systematic one-factor-at-a-time histories first (two builds that differ in one listed property, every alternative value, every supply channel, every fixed environment); then: one run = a seeded history of 6-12 builds (each a fresh simulated process, or 2-3 consecutive builds per process) on one cache directory, drawn from "
                       "families: single-property variations, value swaps between the three flag properties, equal values in two "
                       "properties, repeats; oracle = isolated empty-cache build of the same configuration + distinct configurations "
                       "never share an entry + repeats hit the cache; non-trivial = history holds >= 2 distinct configurations; "
-                      "distinct = hash of the configuration sequence")
+                      "distinct = hash of the configuration sequence") % len(systematic())
     ex.report.assumptions = [
         "environment held fixed within a history; 3 of 7 histories run with all OCCA_*, CXX*, *FLAGS variables unset, the others with one of "
         "OCCA_CXXFLAGS / CXXFLAGS (fallbacks that never apply because the property is always given) or OCCA_LDFLAGS (overrides the property) set",
